@@ -15,13 +15,14 @@ import Driver.OpsSnap
 import Driver.OpsTopo
 import Driver.OpsBind
 import Driver.OpsXfer
+import Driver.OpsDisc
 open Driver
 
 def dispatch (line : String) : String :=
   match line.splitOn "\t" with
   | [] => "bad-op"
   | op :: args =>
-    match (((ops04 op args).orElse (fun _ => ops02 op args)).orElse (fun _ => ops06 op args)).orElse (fun _ => ops01 op args) |>.orElse (fun _ => ops05 op args) |>.orElse (fun _ => ops03 op args) |>.orElse (fun _ => ops10 op args) |>.orElse (fun _ => ops19 op args) |>.orElse (fun _ => ops17 op args) |>.orElse (fun _ => opsQos op args) |>.orElse (fun _ => opsLim op args) |>.orElse (fun _ => opsDb op args) |>.orElse (fun _ => opsEng op args) |>.orElse (fun _ => opsSnap op args) |>.orElse (fun _ => opsTopo op args) |>.orElse (fun _ => opsBind op args) |>.orElse (fun _ => opsXfer op args) with
+    match (((ops04 op args).orElse (fun _ => ops02 op args)).orElse (fun _ => ops06 op args)).orElse (fun _ => ops01 op args) |>.orElse (fun _ => ops05 op args) |>.orElse (fun _ => ops03 op args) |>.orElse (fun _ => ops10 op args) |>.orElse (fun _ => ops19 op args) |>.orElse (fun _ => ops17 op args) |>.orElse (fun _ => opsQos op args) |>.orElse (fun _ => opsLim op args) |>.orElse (fun _ => opsDb op args) |>.orElse (fun _ => opsEng op args) |>.orElse (fun _ => opsSnap op args) |>.orElse (fun _ => opsTopo op args) |>.orElse (fun _ => opsBind op args) |>.orElse (fun _ => opsXfer op args) |>.orElse (fun _ => opsDisc op args) with
     | some r => r
     | none => "bad-op"
 
